@@ -44,8 +44,8 @@ type Run struct {
 	Counters  map[string]int64
 	SimNanos  int64 // simulated time covered
 	Blocks    int64
-	OkOps     int   // successful state-changing operations
-	StepIdx   int   // current step, maintained by the engine
+	OkOps     int // successful state-changing operations
+	StepIdx   int // current step, maintained by the engine
 	KeepTrace bool
 	Trace     []string
 
